@@ -13,7 +13,7 @@ type evV2 struct {
 // names and source == target (C16), so those degenerate names are excluded.
 func c15Name() string {
 	n := vStr("custom-name")
-	vAssume(n != "" && n != "eventbus.evV2" && n != "eventbus.evA")
+	vAssume(n != "eventbus.evV2" && n != "eventbus.evA")
 	return n
 }
 
@@ -35,7 +35,11 @@ func c15Check[T any](e T, want int) {
 	vAssert(err == nil, "subscribe-ok")
 	vAssert(got == 1, "typed-replay-subscription-matches-stored-name")
 
-	// typed upcast registration for the type as source
+	// typed upcast registration for the type as source (an empty type name cannot be registered: C16)
+	if EventType(e) == "" {
+		vCover("checked")
+		return
+	}
 	bus3 := New(WithStore(st))
 	vAssert(RegisterUpcast(bus3, func(x T) evV2 { return evV2{N: want, V: 2} }) == nil, "register-ok")
 	seenV2 := 0
@@ -84,6 +88,7 @@ func harnessC15NamedPtrAsValue() {
 func harnessC15UpcastTargetName() {
 	ctx := context.Background()
 	evNamedName = c15Name()
+	vAssume(evNamedName != "")
 	st := NewMemoryStore()
 	bus := New(WithStore(st))
 	Publish(bus, evA{N: 1})
@@ -109,3 +114,27 @@ func harnessC15NilPointer() {
 
 //verif:entry property=C15 tier=both bounds="shape: nil pointer to a plain struct" cover="checked"
 func harnessC15NilPlainPointer() { c15Check((*evA)(nil), 1) }
+
+//verif:entry property=C15 tier=both bounds="one struct published both by value and by pointer on one bus, a typed upcaster registered for the value type only" cover="checked"
+func harnessC15ValueAndPointerTogether() {
+	ctx := context.Background()
+	st := NewMemoryStore()
+	bus := New(WithStore(st))
+	Publish(bus, evA{N: 1})
+	Publish(bus, &evA{N: 2})
+	bus2 := New(WithStore(st))
+	vAssert(RegisterUpcast(bus2, func(x evA) evV2 { return evV2{N: x.N, V: 2} }) == nil, "register-ok")
+	var types []string
+	vAssert(bus2.ReplayWithUpcast(ctx, OffsetOldest, func(se *StoredEvent) error {
+		types = append(types, se.Type)
+		return nil
+	}) == nil, "replay-ok")
+	vAssert(len(types) == 2 && types[0] == EventType(evV2{}), "value-event-upcast-by-its-typed-upcaster")
+	vAssert(types[1] == EventType(&evA{}), "pointer-event-keeps-its-own-name")
+	gotPtr := 0
+	bus3 := New(WithStore(st))
+	RegisterUpcast(bus3, func(x evA) evV2 { return evV2{N: x.N, V: 2} })
+	vAssert(SubscribeWithReplay(ctx, bus3, "p", func(x *evA) { gotPtr++ }) == nil, "subscribe-ok")
+	vAssert(gotPtr == 1, "typed-replay-subscription-matches-stored-name")
+	vCover("checked")
+}
